@@ -498,6 +498,9 @@ pub fn run(ctx: &Ctx) {
         let c = InjCase { doc: DocCase { vi: *vi, target, tape: tape.clone(), style: style.clone(), budget: 14, plain: style.len() < 10 }, defect: *defect, sel: sel.clone() };
         check_injected(&c, st)
     });
+    if ctx.tier == Tier::Thorough {
+        crate::fuzzstage::run(ctx, "C08", oracle_c08);
+    }
 }
 
 pub fn replay(ctx: &Ctx, case: &Value) {
